@@ -1,5 +1,6 @@
 import StepModel.ExpressDiagLemmas
 import StepModel.ExpressResolveLemmas
+import StepModel.ExpressWF
 /-!
 # C04 — all EXPRESS tools give the same, correct verdict on a schema
 
@@ -269,49 +270,99 @@ example : NoDupAlias chainFile := by
 theorem hasError_of_mem {ds : List Diag} {d : Diag} (h : d ∈ ds) (he : isErrorCode d.code = true) : hasError ds = true := by
   simp only [hasError, List.any_eq_true]; exact ⟨d, h, he⟩
 
-/-- a supertype name that denotes no entity — nothing at all, or an imported non-entity — is an ERROR -/
+/-! ### ERROR ⇔ not well-formed, class by class (the predicates are in `StepModel/ExpressWF.lean`) -/
+
+/-- **duplicate declaration in one scope** (`DICTdefine`: attributes of an entity, items of an enumeration): an ERROR is reported
+    exactly when two names entered into the scope coincide -/
+theorem C04_duplicate_iff (path : String) (items : List (String × Nat)) :
+    hasError (dupDiags path items []) = false ↔ (items.map (·.1)).Nodup :=
+  dupDiags_noError_iff path items
+
+/-- **undefined super/subtype**: `ENTITYresolve_supertypes/_subtypes` report no ERROR for `e` exactly when every name in
+    SUBTYPE OF and in the SUPERTYPE OF expression denotes an entity (declared in the schema or imported) -/
+theorem C04_super_sub_iff (path : String) (env : Env) (s : Schema) (e : Entity) :
+    hasError (superSubDiags path env s e) = false ↔
+      (∀ x ∈ e.supers, isEnt env s x.1 = true) ∧ (∀ n ∈ e.subs, isEnt env s n = true) :=
+  superSub_noError_iff path env s e
+
+/-- hence a schema with such a name is rejected by pass 3 -/
 theorem C04_reject_undefined_supertype (path : String) (env : Env) (s : Schema) (e : Entity) (n : String) (l : Nat)
     (he : Decl.entity e ∈ s.decls) (hs : (n, l) ∈ e.supers) (hn : isEnt env s n = false) :
     hasError (pass3 path env s) = true := by
-  cases hfd : env.foreignDecl n with
-  | none =>
-    apply hasError_of_mem (d := mk path LibErrors.UNKNOWN_SUPERTYPE l [sArg n, sArg e.name])
-    · simp only [pass3, List.mem_flatMap]
-      refine ⟨.entity e, he, ?_⟩
-      simp only [List.mem_append, List.mem_filterMap]
-      exact Or.inl ⟨(n, l), hs, by simp [hn, hfd]⟩
-    · show isErrorCode LibErrors.UNKNOWN_SUPERTYPE = true
-      decide
-  | some p =>
-    apply hasError_of_mem (d := mk path LibErrors.SUPERTYPE_RESOLVE l [sArg n, .int p.2])
-    · simp only [pass3, List.mem_flatMap]
-      refine ⟨.entity e, he, ?_⟩
-      simp only [List.mem_append, List.mem_filterMap]
-      exact Or.inl ⟨(n, l), hs, by simp [hn, hfd]⟩
-    · show isErrorCode LibErrors.SUPERTYPE_RESOLVE = true
-      decide
+  cases hp : hasError (pass3 path env s) with
+  | true => rfl
+  | false =>
+    have := (hasError_flatMap_false _ _).mp hp (.entity e) he
+    have := ((superSub_noError_iff path env s e).mp this).1 (n, l) hs
+    simp [hn] at this
 
-/-- likewise for a name in the SUPERTYPE OF expression -/
 theorem C04_reject_undefined_subtype (path : String) (env : Env) (s : Schema) (e : Entity) (n : String)
     (he : Decl.entity e ∈ s.decls) (hs : n ∈ e.subs) (hn : isEnt env s n = false) :
     hasError (pass3 path env s) = true := by
-  cases hfd : env.foreignDecl n with
-  | none =>
-    apply hasError_of_mem (d := mk path LibErrors.UNKNOWN_SUBTYPE e.line [sArg n, sArg e.name])
-    · simp only [pass3, List.mem_flatMap]
-      refine ⟨.entity e, he, ?_⟩
-      simp only [List.mem_append, List.mem_filterMap]
-      exact Or.inr ⟨n, hs, by simp [hn, hfd]⟩
-    · show isErrorCode LibErrors.UNKNOWN_SUBTYPE = true
-      decide
-  | some p =>
-    apply hasError_of_mem (d := mk path LibErrors.SUBTYPE_RESOLVE e.line (subtypeResolveArgs n p.1 p.2))
-    · simp only [pass3, List.mem_flatMap]
-      refine ⟨.entity e, he, ?_⟩
-      simp only [List.mem_append, List.mem_filterMap]
-      exact Or.inr ⟨n, hs, by simp [hn, hfd]⟩
-    · show isErrorCode LibErrors.SUBTYPE_RESOLVE = true
-      decide
+  cases hp : hasError (pass3 path env s) with
+  | true => rfl
+  | false =>
+    have := (hasError_flatMap_false _ _).mp hp (.entity e) he
+    have := ((superSub_noError_iff path env s e).mp this).2 n hs
+    simp [hn] at this
+
+/-- **undefined type**: a type reference (attribute type, underlying type, select item) is reported exactly when the name at its
+    core denotes neither a type nor an entity of the schema nor an imported one -/
+theorem C04_undefined_type_iff (path : String) (env : Env) (s : Schema) (t : TypeRef) :
+    hasError (typeRefDiags path env s t) = false ↔ TypeRefWF env s t :=
+  typeRef_noError_iff path env s t
+
+/-- **subtype not listing its supertype**: MISSING_SUPERTYPE is reported for `e` exactly when some entity on `e`'s subtype list
+    does not name `e` among its supertypes (checked per subtype) -/
+theorem C04_missing_supertype_iff (path : String) (s : Schema) (e : Entity) :
+    hasError (missingSuperDiags path s e) = false ↔ SubtypesListSuper s e :=
+  missingSuper_noError_iff path s e
+
+/-- **inherited attribute re-declared**: OVERLOADED_ATTR exactly when a new attribute of `e` is found in a supertype -/
+theorem C04_overloaded_attr_iff (path : String) (s : Schema) (fuel : Nat) (e : Entity) :
+    hasError (overloadDiags path s fuel e) = false ↔ NoOverload s fuel e :=
+  overload_noError_iff path s fuel e
+
+/-- **bad INVERSE**: reported exactly when the inverted type is no entity, or the entity and its supertypes do not declare the
+    attribute (an attribute of a subtype or sibling does not count) -/
+theorem C04_bad_inverse_iff (path : String) (s : Schema) (a : Attr) (hasAttr : String → String → Bool) :
+    hasError (inverseDiags path s a hasAttr) = false ↔ InverseWF s hasAttr a :=
+  inverse_noError_iff path s a hasAttr
+
+/-- **undefined function** in a domain rule (of an entity or of a type, used or not): an ERROR exactly when the name is neither a
+    function of the schema nor a built-in; a wrong argument count is only a warning -/
+theorem C04_undefined_function_iff (path : String) (s : Schema) (r : Rule) (fn : String) (argc : Nat) :
+    hasError (callDiags path s r fn argc) = false ↔ CallWF s fn :=
+  callDiags_noError_iff path s r fn argc
+
+/-- **`ENTITYresolve_expressions`** reports no ERROR for `e` ⇔ no overload, well-formed redeclarations, and rules whose calls
+    name functions and whose attribute references (`SELF.a`, bare `a`) are own or inherited attributes -/
+theorem C04_entity_expressions_iff (path : String) (s : Schema) (fuel : Nat) (e : Entity) :
+    hasError (entityPass5 path s fuel e) = false ↔ NoOverload s fuel e ∧ RedeclWF s fuel e ∧ RulesWF s fuel e :=
+  entityPass5_noError_iff path s fuel e
+
+/-- **the cycle search terminates** with the fuel pass 4 gives it (number of declarations + 1), whatever the sibling order -/
+theorem C04_cycle_search_terminates (ret : Bool) (s : Schema) (n : String) :
+    ∃ r, dfs ret n (subGraph s) (s.decls.length + 1) (subGraph s n) [] = some r :=
+  dfs_terminates ret n (subGraph s) (s.entities.map (·.name)) (fun m _ => subGraph_closed s m) (subGraph_closed s n) _
+    (by have := entities_length_le s; omega)
+
+/-- pass 4 gives the search exactly that fuel unless the schema has more declarations than the recursion-depth guard allows
+    (5000 on this tree); beyond it a deep chain of subtypes is refused with SYNTAX (severity EXIT) -/
+theorem C04_subsuper_fuel (s : Schema) (h : ∀ k, ResolveGen.subsuperDepthLimit = some k → s.decls.length < k) :
+    subsuperFuel s = s.decls.length + 1 := by
+  unfold subsuperFuel
+  cases hk : ResolveGen.subsuperDepthLimit with
+  | none => rfl
+  | some k => have := h k hk; simp only; omega
+
+/-- **subtype cycle ⇔ SUBSUPER_LOOP**: with the regenerated visited-node action the search pass 4 runs from entity `n` reports
+    exactly when `n` is a subtype of itself -/
+theorem C04_subsuper_cycle_iff (s : Schema) (n : String) :
+    (∃ r, dfs ResolveGen.visitedReturnsSubsuper n (subGraph s) (s.decls.length + 1) (subGraph s n) [] = some r ∧ r.found = true) ↔
+      Reach (subGraph s) n n := by
+  have hv : ResolveGen.visitedReturnsSubsuper = false := by decide
+  rw [hv]; exact subsuper_found_iff s n
 
 /-- undefined schema in an interface clause -/
 theorem C04_reject_undefined_schema (f : File) (s : Schema) (i : Iface)
